@@ -22,6 +22,7 @@ TREES = {
     'Par7': {'par': [0, 1, 2, 3, 2, 5, 6], 'n': 7, 'start': 2, 'batch': 2, 'tips': 'Tips134'},
     'Par7s1': {'par': [0, 1, 2, 3, 2, 5, 6], 'n': 7, 'start': 1, 'batch': 2, 'tips': 'Tips124'},
     'Par14': {'par': [0, 1, 2, 3, 4, 5, 6, 7, 8, 9, 10, 11, 9, 13], 'n': 14, 'start': 1, 'batch': 12, 'tips': 'Tips14'},
+    'Par15': {'par': [0, 1, 2, 3, 4, 5, 6, 7, 8, 9, 10, 11, 11, 13, 14], 'n': 15, 'start': 1, 'batch': 12, 'tips': 'Tips15'},
 }
 
 ENVS = {
